@@ -550,7 +550,7 @@ PROPS = {
         "trusted": [
             "modelled, not verified: Go's io.ReadFull/io.CopyN/bytes.Buffer/bufio.Writer (a reader over a byte stream yields the next n bytes or an error), encoding/binary, encoding/hex, unicode/utf8 ([]rune conversion and EncodeRune are written out in Model/Bytea.v and replayed against the real functions)",
             "the literal tag bytes 0xfb..0xfe and bounds 250/0xffff/0xffffff of decryptor/mysql/base/utils.go are written in the model (they are not named constants); the replay of the boundary table on every run ties them to the code",
-            "Bind / Parse / Execute / GetSimpleQuery are CHECKED models (Lib/GoSlice.v; int(uint16)/int(uint32) written out; the NULL parameter marker 0xFFFFFFFF is a literal of utils.go tied by the replay of the edge table); not modelled (implementation oracle only, through the hook VerifS14Proxy): PgProxy.handleClientPacket / handleDatabasePacket around them (statement registry, pg_query, pgproto3's RowDescription/ParameterDescription codecs)",
+            "Bind / Parse / Execute / GetSimpleQuery are CHECKED models (Lib/GoSlice.v; int(uint16)/int(uint32) written out; the NULL parameter marker 0xFFFFFFFF is a literal of utils.go tied by the replay of the edge table); several messages through one handler object are modelled as independent messages (Model/PgWire.v session: the history of the packet buffer must not show; op PgSession); PgProxy.handleClientPacket with a rewriting query observer (hooks VerifS14Proxy + VerifS32AddQueryObserver) is replayed as the handler-path op of the same message (Parse / Query; Bind through OnBind/SetParameters: implementation oracle only); not modelled (implementation oracle only, through the hook VerifS14Proxy): PgProxy.handleClientPacket / handleDatabasePacket around them (statement registry, pg_query, pgproto3's RowDescription/ParameterDescription codecs)",
             "MySQL (Model/MysqlWireExt.v, Properties/C12_mysql.v, domain c12my): packet framing, classification, binary rows, column definition packets and the COM_STMT_EXECUTE parameter block are CHECKED models replayed through the add-only hook decryptor/mysql/export_verif_x12my.go; MaxPayloadLen is a parameter of the model (theorems for every value; the multi-packet branch of ReadPacket/Dump is tied to the real code only by the 16 MiB implementation oracle of the thorough tier, such literals cannot be replayed in Coq); the subscribers of a row (onColumnDecryption) and GetType/GetData/Encode of a bound value are arbitrary functions in the theorems and scripted in the replay (their own behaviour: C19 / Model/TypedMysql.v); the decimal text form of numeric parameters (strconv) is not modelled; Handler.handleStatementExecute and the capability accessors of the first packets are run on truncated packets by the implementation oracle only (hooks VerifX12HandleStatementExecute / VerifX12Capabilities), not modelled; Gen/WireMysqlConsts.v: type tables probed from extractData for all 256 type bytes and read from base.NumericTypesStorageBytes"
         ],
         "assumptions": [
